@@ -81,7 +81,8 @@ impl CF for [i16; 2] {
     const INT: bool = true;
     const EPS: f64 = 0.0;
     fn ramp(i: usize) -> Self {
-        [(i as i16 + 1) * 1000, -(i as i16 + 1) * 333]
+        // (wraps for long sources: any i16 pattern will do, both sides see the same values)
+        [(i as i16).wrapping_add(1).wrapping_mul(1000), (i as i16).wrapping_add(1).wrapping_mul(333).wrapping_neg()]
     }
     fn alt(i: usize) -> Self {
         if i % 2 == 0 {
